@@ -47,6 +47,9 @@ def shards(tier, seed):
     return out
 
 
+_ALT = {"i": 0}
+
+
 def mech(base, two_torsion, detail=None):
     """Violations that involve a y = 0 point carry the call shape as a detail suffix; known_findings.json lists
     exactly the shapes that fail on the pinned tree, so a NEW shape (e.g. legacy + legacy, which is right today) is reported."""
@@ -78,7 +81,17 @@ def check_binary(ctx, dom, cfp, P, Q, rp, rq, fam, two_t_curve):
     c, p = dom.curve, dom.curve.p
     rng = ctx.rng
     A = build(cfp, P, rp, rng)
-    B = build(cfp, Q, rq, rng)
+    _ALT["i"] += 1
+    if _ALT["i"] % 3 == 0:
+        # the same curve as a separate object: built by the caller without a cofactor, or with one - curve identity / the cofactor
+        # must play no part in point arithmetic and comparison
+        # (same p, a, b as given to the first object: the library compares curve parameters as written, a = -3 and a = p-3 are
+        # different declarations for it, which is not what this property is about)
+        cfp_b = lib.CurveFp(int(cfp.p()), int(cfp.a()), int(cfp.b()), None if _ALT["i"] % 6 else 1)
+        ctx.count("operand_on_separate_equal_curve_object")
+    else:
+        cfp_b = cfp
+    B = build(cfp_b, Q, rq, rng)
     sa, sb = points.src(A), points.src(B)
     E = c.add(P, Q)
     tt = two_t_curve and any(X is not None and X[1] == 0 for X in (P, Q, E))
@@ -269,7 +282,9 @@ def run(ctx, name, kind, **kw):
 def _prod_add(ctx, dom, cfp, P, Q, rp, rq, cls, fam):
     cv, p = dom.curve, dom.p
     rng = ctx.rng
-    A, B = build(cfp, P, rp, rng), build(cfp, Q, rq, rng)
+    _ALT["i"] += 1
+    cfp_b = cfp if _ALT["i"] % 3 else lib.CurveFp(int(cfp.p()), int(cfp.a()), int(cfp.b()), None if _ALT["i"] % 2 else 1)
+    A, B = build(cfp, P, rp, rng), build(cfp_b, Q, rq, rng)
     E = cv.add(P, Q)
     sa, sb = points.src(A), points.src(B)
     ctx.case(cls, key="%s|%s|%s" % (fam, rep_class(rp), rep_class(rq)), sample=dict(curve=fam, A=sa, B=sb, expected=E) if ctx.want(cls) else None)
